@@ -27,7 +27,8 @@ RULE = ('stage sequences of length 0-4 over the eleven stage kinds with small pa
         'Non-trivial = >= 2 stages of different kinds, or an endless source, or a re-used base spec.')
 ASSUMPTIONS = [
     'reference stages are written independently of boltons (own chunked/windowed/split/unique)',
-    'laziness: pulls(glom, k outputs) <= pulls(reference, k outputs) + per-stage look-ahead allowance (window size, chunk size, 1)',
+    'laziness: pulls(glom, k outputs) <= pulls(reference, k outputs) + per-stage look-ahead allowance (window size, chunk size, 1); '
+    'when the input of a windowed(n) stage never yields n-1 items (an endless source whose items are all skipped) the allowed look-ahead itself diverges and nothing is asserted',
     'SKIP/STOP returned from a .map() stage are ordinary values; split(maxsplit=0) is not generated',
 ]
 BUDGET = 3000
@@ -368,6 +369,20 @@ def allowance(stages):
     return a
 
 
+def lookahead_diverges(recipe):
+    """does the look-ahead a windowed(n) stage is allowed (n-1 items of ITS input) already need unboundedly many pulls?"""
+    for j, s in enumerate(recipe['stages']):
+        if s[0] == 'windowed' and s[1] > 1:
+            src = Src(list(recipe['source']['items']), recipe['source']['endless'])
+            try:
+                list(itertools.islice(refpipe(src, recipe, recipe['stages'][:j]), s[1] - 1))
+            except tg.BudgetExceeded:
+                return True
+            except Exception:
+                return False
+    return False
+
+
 def check(recipe, ctx):
     stages = recipe['stages']
     kinds = set(s[0] for s in stages)
@@ -415,6 +430,10 @@ def check(recipe, ctx):
         if exp[0] == 'err':
             if got[0] != 'err':
                 raise Mismatch('missing-error', '%s: the composition raises %r, glom: %r' % (where, exp[1], got))
+            continue
+        if got[0] == 'diverges' and lookahead_diverges(recipe):
+            # windowed() looks size-1 items ahead (its allowance); here its input never yields that many
+            ctx.label('lookahead-diverges')
             continue
         if got[0] == 'diverges':
             raise Mismatch('not-lazy', '%s: expected %r after %d pulls; glom pulled more than %d items'
